@@ -1604,7 +1604,91 @@ fn gen_small_abs(rng: &mut Rng, size: u64) -> Value {
     }
 }
 
+/// directed sequences around one stack slot: write it exactly, then read / overwrite it through a pointer with
+/// several targets (a missing object, an inexact offset, a second object) and read it back exactly
+fn gen_ms_directed(rng: &mut Rng, out: &mut Out, pi: &'static PointerInference<'static>) {
+    let sid = stack_id_index();
+    let pool = id_pool();
+    let rdi_idx = pool.iter().position(|x| *x == AbstractIdentifier::from_var(Tid::new("f0"), &var("RDI", 8))).unwrap();
+    let rsi_idx = pool.iter().position(|x| *x == AbstractIdentifier::from_var(Tid::new("f0"), &var("RSI", 8))).unwrap();
+    let sp_off = 8 * rng.range(-12, -2);
+    let k = 8 * rng.range(0, 3);
+    let size = *rng.pick(&[8u64, 8, 4, 1]);
+    let iv = |s: i64, e: i64, st: u64| json!({"w": 64, "s": s, "e": e, "st": st, "lo": null, "up": null, "d": 0});
+    let slot = sp_off + k;
+    // the second pointer
+    let mut rel: Vec<Value> = Vec::new();
+    let mut top = false;
+    let mut extra = Vec::new();
+    match rng.below(6) {
+        0 => {
+            rel.push(json!([sid, iv(slot, slot, 0)]));
+            rel.push(json!([rsi_idx, iv(0, 0, 0)])); // no object
+        }
+        1 => {
+            rel.push(json!([sid, iv(slot, slot, 0)]));
+            rel.push(json!([rdi_idx, iv(0, 8, 8)])); // object, inexact offset
+            extra.push(json!([rdi_idx, true]));
+        }
+        2 => {
+            rel.push(json!([sid, iv(slot, slot, 0)]));
+            rel.push(json!([rdi_idx, iv(8, 8, 0)])); // object, exact offset
+            extra.push(json!([rdi_idx, rng.chance(3, 4)]));
+        }
+        3 => rel.push(json!([sid, iv(slot - 8, slot + 8, *rng.pick(&[8u64, 4, 1]))])), // inexact stack offset
+        4 => {
+            rel.push(json!([sid, iv(slot, slot, 0)]));
+            top = true;
+        }
+        _ => rel.push(json!([sid, iv(slot, slot, 0)])),
+    }
+    rel.sort_by_key(|r| r[0].as_u64().unwrap());
+    let value_reg = match size {
+        8 => "RAX",
+        4 => "E4A",
+        2 => "H2A",
+        _ => "B1A",
+    };
+    let other_reg = match size {
+        8 => "RDX",
+        4 => "E4B",
+        2 => "H2A",
+        _ => "CF",
+    };
+    let regs = json!([
+        ["RSP", 8, ptr_data(sid, sp_off)],
+        ["RBX", 8, {"size": 8, "rel": rel, "abs": null, "top": top}],
+        ["RDI", 8, ptr_data(rdi_idx, 8)],
+        [value_reg, size, gen_small_abs(rng, size)],
+        [other_reg, size, gen_small_abs(rng, size)],
+    ]);
+    let init = json!({"regs": regs, "globals": [], "extra": extra, "stack_unique": !rng.chance(1, 10)});
+    let slot_addr = || e_bin(BinOpType::IntAdd, e_var("RSP", 8), e_const(k as u64, 8));
+    let mut defs = vec![d_store("d0", slot_addr(), e_var(value_reg, size))];
+    if rng.chance(1, 2) {
+        defs.push(d_store("d1", e_bin(BinOpType::IntAdd, e_var("RDI", 8), e_const(0, 8)), e_var(other_reg, size)));
+    }
+    match rng.below(3) {
+        0 => defs.push(d_load("d2", var(other_reg, size), e_var("RBX", 8))),
+        1 => {
+            defs.push(d_store("d2", e_var("RBX", 8), e_var(other_reg, size)));
+            defs.push(d_load("d3", var(value_reg, size), slot_addr()));
+        }
+        _ => {
+            defs.push(d_load("d2", var(other_reg, size), e_var("RBX", 8)));
+            defs.push(d_store("d3", e_var("RBX", 8), e_var(value_reg, size)));
+            defs.push(d_load("d4", var(value_reg, size), slot_addr()));
+        }
+    }
+    out.count("gen:ms-directed");
+    let seed = rng.next() >> 12;
+    emit_ms(out, pi, &init, &defs, seed);
+}
+
 fn gen_ms(rng: &mut Rng, out: &mut Out, pi: &'static PointerInference<'static>) {
+    if rng.chance(1, 6) {
+        return gen_ms_directed(rng, out, pi);
+    }
     let sid = stack_id_index();
     let pool = id_pool();
     let rdi_idx = pool.iter().position(|x| *x == AbstractIdentifier::from_var(Tid::new("f0"), &var("RDI", 8))).unwrap();
@@ -1631,12 +1715,18 @@ fn gen_ms(rng: &mut Rng, out: &mut Out, pi: &'static PointerInference<'static>) 
             regs.push(json!(["RBX", 8, {"size": 8, "rel": [[sid, {"w": 64, "s": s, "e": s + n * st as i64, "st": st, "lo": null, "up": null, "d": 0}]], "abs": null, "top": false}]));
         }
         2 => {
-            // two targets (merge-write) or a target plus absolute/top
-            let mut rel = vec![json!([sid, {"w": 64, "s": sp_off, "e": sp_off, "st": 0, "lo": null, "up": null, "d": 0}])];
+            // two targets (merge-write) or a target plus absolute/top; the stack offset sometimes inexact
+            let (s0, e0, st0) = if rng.chance(1, 3) { (sp_off - 8, sp_off + 8, 8u64) } else { (sp_off, sp_off, 0) };
+            let mut rel = vec![json!([sid, {"w": 64, "s": s0, "e": e0, "st": st0, "lo": null, "up": null, "d": 0}])];
             let mut abs = Value::Null;
             let mut top = false;
             match rng.below(3) {
-                0 => rel.push(json!([rdi_idx.max(rsi_idx), {"w": 64, "s": 0, "e": 0, "st": 0, "lo": null, "up": null, "d": 0}])),
+                0 => {
+                    // the second target: RDI's identifier (which may have an object) or RSI's (which never has)
+                    let other = if rng.chance(1, 2) { rdi_idx } else { rsi_idx };
+                    let o = if rng.chance(1, 4) { 8 } else { 0 };
+                    rel.push(json!([other, {"w": 64, "s": o, "e": o, "st": 0, "lo": null, "up": null, "d": 0}]))
+                }
                 1 => abs = json!({"w": 64, "s": 0x2000, "e": 0x2000, "st": 0, "lo": null, "up": null, "d": 0}),
                 _ => top = true,
             }
@@ -1667,7 +1757,7 @@ fn gen_ms(rng: &mut Rng, out: &mut Out, pi: &'static PointerInference<'static>) 
         }
     }
     let mut extra = Vec::new();
-    if has_rdi && rng.chance(1, 2) {
+    if (has_rdi && rng.chance(1, 2)) || (!has_rdi && rbx_kind == 2 && rng.chance(1, 2)) {
         extra.push(json!([rdi_idx, rng.chance(3, 4)]));
     }
     let init = json!({"regs": regs, "globals": globals, "extra": extra, "stack_unique": !rng.chance(1, 12)});
@@ -1945,8 +2035,13 @@ fn main() {
          + pointer-inference fixpoint; per program several concrete runs in the Lean reference interpreter; plus direct calls of \
          State::check_def_for_null_dereferences; plus direct calls of DataDomain<IntervalDomain>::bin_op/un_op/cast/subpiece on \
          generated values (all shapes: empty, top, absolute, one/many pointers, mixtures; sizes 1-8 bytes) and of State::eval on \
-         generated register states and well-sized expressions; non-trivial = some register has a bounded value at some block \
-         start / the NULL check fired / the first operand is neither empty nor top / the evaluation result is not top; distinct \
+         generated register states and well-sized expressions; plus sequences of 1-6 generated Defs (stack stores/loads of 1/2/4/8 bytes \
+         at overlapping offsets through exact, inexact and multi-target pointers, parameter/global/constant addresses; directed \
+         write-read-overwrite sequences around one slot) through the real Context::update_def on constructed states, and the real \
+         Context::specialize_conditional on constructed register states for generated conditions (six comparison operators x \
+         register/constant on either side with constants at and next to the bounds of the register's value, negations, flags, and \
+         conditions outside the proved fragment) for both truth values; non-trivial = some register has a bounded value at some block \
+         start / the NULL check fired / the first operand is neither empty nor top / the evaluation result is not top / some memory object holds a cell at the end / the specialisation changed the state; distinct \
          by program / by input",
     );
     let pi = leak_pi();
